@@ -60,8 +60,16 @@ def check_owner(E, st, args, kw):
     return out
 
 
-@R.spec("Pyro5.client.Proxy.__serializeBlobArgs", doc="blob variant of argument encoding: (bytes, flags) or any Exception; flags stay 16 bit")
+@R.spec("Pyro5.client.Proxy.__serializeBlobArgs", doc="blob variant of argument encoding: (bytes, flags) or any Exception; flags stay 16 bit; writes the BLBI entry into the annotation dict passed to it")
 def serialize_blob(E, st, args, kw):
+    # it WRITES the blob's bookkeeping annotation (BLBI) into the annotation dict it is given (body: contract BlobArgs below)
+    for x in args:
+        if isinstance(x, VObj) and x.cls == "seqdict":
+            st.set(x, "n", VInt(fresh("n_with_blob_info", IntS)))
+            st.assume(st.get(x, "n").e >= 1)
+            st.set(x, "keys", fresh("keys_with_blob_info", z3.ArraySort(IntS, StrS)))
+            st.set(x, "vals", fresh("vals_with_blob_info", z3.ArraySort(IntS, BytesS)))
+            st.set(x, "prov", frozenset(st.get(x, "prov", frozenset(["empty"]))) | frozenset(["blob-info"]))
     out = [may_raise(E, st, "serializeBlobArgs")]
     f = fresh("blob_flags", IntS)
     st.assume(f >= 0, f < 65536)
@@ -186,6 +194,15 @@ class PyroInvoke(Contract):
                 post += [("the request is an INVOKE", margs["msgtype"].e == MSG_INVOKE),
                          ("the request carries the incremented 16-bit sequence number", margs["seq"].e == newseq),
                          ("the proxy's sequence counter was advanced (with wrap-around) before sending", st.get(a["self"], "_pyroSeq").e == newseq)]
+        # C12: "the call context [a served method] can read ... is that of the request being served": a call made through a proxy - e.g. by a served method, on the
+        # server thread - reads the thread's request annotations to send them along, and never writes into that dict
+        ctx0, ctx1 = old.genv["current_context"], st.genv["current_context"]
+        ann0, ann1 = old.get(ctx0, "annotations"), st.get(ctx1, "annotations")
+        same = isinstance(ann0, VObj) and isinstance(ann1, VObj) and ann0.ref == ann1.ref
+        post.append(("C12: the thread's own request annotations (current_context.annotations) are only read by a call, never written (a blob's bookkeeping entry goes "
+                     "into this one request's annotations)",
+                     z3.And(old.get(ann0, "n").e == st.get(ann1, "n").e, old.get(ann0, "keys") == st.get(ann1, "keys"), old.get(ann0, "vals") == st.get(ann1, "vals"))
+                     if same else z3.BoolVal(False)))
         return conn, snd, post, newseq
 
     def reads(self, old, st, conn):
